@@ -220,7 +220,27 @@ func runHistory(dir string, seed uint64, spec PropSpec, shipped string) (*Case, 
 			emit(&Op{Kind: "cli", Cli: g.cliNext(imgInfo{})})
 			g.count("cli:before-new")
 		}
-		emit(&Op{Kind: "cli", Cli: &CliOp{Cmd: "new"}})
+		if r.Chance(1, 5) {
+			// the image was made by a program using the library with OptCreateDeterministic (siftool
+			// itself cannot make one): nil ID, unset times — and they stay unset whatever siftool does
+			co := &Op{Kind: "create", Backend: "file", COpts: []CreateOpt{{Kind: "cap", I: int64(4 + r.Intn(8))}, {Kind: "det"}}}
+			var dis []DI
+			for k := r.Intn(3); k > 0; k-- {
+				di := DI{DT: 0x4007, Fail: -1, Data: DataSpec{Lit: r.Bytes(1 + r.Intn(30))}}
+				if r.Chance(1, 2) {
+					di = DI{DT: 0x4004, Fail: -1, Data: DataSpec{Lit: r.Bytes(1 + r.Intn(30))},
+						Opts: []DIOpt{{Kind: "part", I: int64(1 + r.Intn(5)), J: 1, S: pick(r, archNames)}}}
+				}
+				dis = append(dis, di)
+			}
+			if len(dis) > 0 {
+				co.COpts = append(co.COpts, CreateOpt{Kind: "descs", DIs: dis})
+			}
+			emit(co)
+			g.count("cli:on-deterministic-image-made-by-the-library")
+		} else {
+			emit(&Op{Kind: "cli", Cli: &CliOp{Cmd: "new"}})
+		}
 		emit(obsOp())
 		if r.Chance(1, 4) {
 			// a partition life cycle that random commands rarely complete: system partition(s),
